@@ -58,7 +58,7 @@ def has_op(case, names, pred=None):
 class C08(CommProp):
     id = "C08"
     sizes = {"quick": 1500, "thorough": 60000}
-    ready = False
+    ready = True
     nontrivial_labels = ("pending-sends>=2", "pending-recvs>=2", "filter-skips-head", "perm-recv-from-done", "perm-done-filter-skips-head")
     technique = ("property-based testing (Hypothesis): generated mailbox programs run on the real kernel; their kernel-ordered log is "
                  "replayed through a sequential mailbox specification (model-based oracle on order and identity)")
@@ -136,6 +136,9 @@ class C08(CommProp):
         err = log.err or ""
         if "observer != nullptr" in err and has_op(case, ("put_wait", "get_wait"), lambda op: isinstance(op[-1], dict) and "timeout" in op[-1]):
             return "crash:wait_for-timeout-on-unstarted-comm"
+        reqs = [l for l in log.lines if l.get("k") == "req"]
+        if reqs and reqs[-1]["op"][0] in ("wait_any", "test_any") and "waitany-after-failed-wait" in commspec.all_labels(case, log.lines):
+            return "crash:dangling-observer-after-failed-wait"
         if has_op(case, ("iprobe",)) and log.rc in (-11, 139):
             return "crash:cancel-after-iprobe"
         return "run-crashed"
